@@ -27,50 +27,38 @@ theorem fileLoop_texts (fs : List File) :
     rw [ih]
     simp [item, Function.comp_def]
 
-/-- under the layout condition "attached" and "own" coincide -/
-theorem attached_eq_own {f : File} (h : layoutOK f = true) {d : Decl} (hd : d ∈ f.decls)
-    (hi : d.isImport = false) {c : Comment} (hc : c ∈ f.comments) : attached d c = own d c := by
-  simp only [layoutOK, List.all_eq_true] at h
-  have h1 := h d hd
-  simp only [hi, Bool.false_or, List.all_eq_true] at h1
-  have h2 := h1 c hc
+/-- "attached" and "own" coincide (the premise is the parser invariant `docBefore`) -/
+theorem attached_eq_own {f : File} (h : docBefore f = true) {d : Decl} (hd : d ∈ f.decls)
+    {c : Comment} (hc : c ∈ f.comments) : attached d c = own d c := by
+  simp only [docBefore, List.all_eq_true] at h
+  have h2 := h d hd c hc
   simp only [attached, own, inside, isDoc] at *
   cases hin : (decide (d.pos ≤ c.pos) && decide (c.pos ≤ d.endp)) with
   | true => simp
   | false =>
     simp only [Bool.false_or]
-    cases hnear : (decide (c.endp ≤ d.pos) && decide (d.pos - c.endp < 10)) with
-    | true =>
-      rw [hnear] at h2
-      simpa using h2
-    | false =>
-      -- a doc comment is always "near"
-      cases hdoc : (c.endp + 1 == d.pos) with
-      | false => rfl
-      | true =>
-        exfalso
-        have : c.endp + 1 = d.pos := by simpa using hdoc
-        have : (decide (c.endp ≤ d.pos) && decide (d.pos - c.endp < 10)) = true := by
-          simp only [Bool.and_eq_true, decide_eq_true_eq]; omega
-        rw [this] at hnear; cases hnear
+    by_cases hdoc : d.docPos = some c.pos
+    · have : c.endp ≤ d.pos := by simpa [hdoc] using h2
+      simp [hdoc, this]
+    · simp [hdoc]
 
-theorem item_eq_specItem {f : File} (h : layoutOK f = true) {d : Decl} (hd : d ∈ f.decls)
-    (hi : d.isImport = false) : item f d = specItem f d := by
+theorem item_eq_specItem {f : File} (h : docBefore f = true) {d : Decl} (hd : d ∈ f.decls) :
+    item f d = specItem f d := by
   simp only [item, specItem, attach]
   congr 2
   apply List.filter_congr
   intro c hc
-  exact attached_eq_own h hd hi hc
+  exact attached_eq_own h hd hc
 
-theorem items_eq_spec_file {f : File} (h : layoutOK f = true) :
+theorem items_eq_spec_file {f : File} (h : docBefore f = true) :
     (f.decls.filter (fun d => !d.isImport)).map (item f) = specItemsOf f := by
   simp only [specItemsOf]
   apply List.map_congr_left
   intro d hd
   rw [List.mem_filter] at hd
-  exact item_eq_specItem h hd.1 (by simpa using hd.2)
+  exact item_eq_specItem h hd.1
 
-theorem fileLoop_eq_spec (fs : List File) (h : fs.all layoutOK = true) : fileLoop fs [] = specItems fs := by
+theorem fileLoop_eq_spec (fs : List File) (h : fs.all docBefore = true) : fileLoop fs [] = specItems fs := by
   rw [fileLoop_eq]
   simp only [List.nil_append, specItems]
   induction fs with
